@@ -563,3 +563,37 @@ def r2_sqlite_count_source(cx):
         cx.ob("C10.R2", "sqlite:%s:count-source" % c, ok,
               "SQLite query of `%s`: the reported total is on every path the value returned by the count statement (%s)%s" % (
                   c, " <- ".join(chain) or root_str(r), "" if ok else " - it is computed some other way on some path (e.g. from the page that was fetched)"), f.loc())
+
+
+
+def sqlite_updated_columns(m, c):
+    """the set of columns the SQLite UPDATE of collection c writes (used by C12.R6)"""
+    pv = Prov(m, "value")
+    idf = m.one(r"^<acts_store_sqlite::collection::%s::CollectionIden as sea_query::Iden>::unquoted$" % c)
+    iden_adt, iden = M.iden_table(m, idf)
+    cols = {v: s for v, s in iden.items() if v != "Table"}
+    coll = "acts_store_sqlite::collection::%s::%sCollection" % (c, c.capitalize())
+    f = m.one(r"^<%s as acts::DbCollection>::update$" % re.escape(coll))
+    uvals = _one_call(f, r"UpdateStatement::values$")
+    uarr = M.array_operands(f, pv.root(f, uvals.args[1]))
+    if uarr is None:
+        raise Anchor("update of %s: values is not an array literal" % c)
+    out = set()
+    for op in uarr:
+        t = M.tuple_operands(f, pv.root(f, op))
+        if t is None:
+            raise Anchor("update of %s: element is not a tuple literal" % c)
+        out.add(cols.get(M.variant_of(pv.root(f, t[0]))))
+    return out, uvals
+
+
+def mem_doc_keys(m, c):
+    pv = Prov(m, "value")
+    f = m.one(r"^acts::store::db::mem::r#impl::%s::<impl acts::store::db::mem::DbDocument for .*>::doc$" % c)
+    keys = set()
+    for call in f.calls():
+        if re.search(r"HashMap::<.*>::insert$|HashMap::<K, V, S>::insert$", call.q):
+            k = M.const_str(pv.root(f, call.args[1]))
+            if k:
+                keys.add(k)
+    return keys, f
